@@ -11,10 +11,16 @@ Variables (x gauss : vec3) (u : R).
 Hypothesis tpos : 0 < tstep.
 Let x' := dd_eposnew_real x gauss (Dt x).
 
-Lemma dd_forward_noise : dd_forward_real gauss = norm2 (vsub (vsub x' x) (Dt x)).
-Proof. subst x'. unfold dd_forward_real, dd_eposnew_real. rewrite norm2_expand. unfold vsum, vpow, vsub, vadd; cbn. ring. Qed.
-Lemma dd_backward_noise : dd_backward_real gauss (Dt x) (Dt x') = norm2 (vsub (vsub x x') (Dt x')).
-Proof. set (d := Dt x'). subst x'. unfold dd_backward_real, dd_eposnew_real. rewrite norm2_expand. unfold vsum, vpow, vsub, vadd; cbn. ring. Qed.
+(* shape-independent proofs: the generated definitions are unfolded to the coordinates and compared as rational functions *)
+Ltac vec_field := unfold lnT, norm2, vsum, vpow, vsub, vadd, vscal; cbn [vx vy vz]; field.
+Ltac vec_ring := unfold lnT, norm2, vsum, vpow, vsub, vadd, vscal; cbn [vx vy vz]; ring.
+
+Lemma dd_lnT_arg_is_log_density_ratio :
+  dd_lnT_arg_real tstep gauss (Dt x) (Dt x') = lnT tstep Dt x' x - lnT tstep Dt x x'.
+Proof.
+  unfold lnT. set (d := Dt x'). subst x'. set (d0 := Dt x) in *. clearbody d d0.
+  unfold dd_lnT_arg_real, dd_eposnew_real. vec_field. lra.
+Qed.
 Lemma dd_variance : dd_proposal_scale_real tstep ^ 2 = tstep.
 Proof. unfold dd_proposal_scale_real. cbn. rewrite Rmult_1_r. apply sqrt_sqrt. lra. Qed.
 
@@ -29,17 +35,26 @@ Proof.
   2:{ field; repeat split; try (apply Rgt_not_eq, exp_pos); try exact Hs. }
   assert (E : exp (lnT tstep Dt x' x) / exp (lnT tstep Dt x x') = exp (lnT tstep Dt x' x - lnT tstep Dt x x')).
   { unfold Rminus. rewrite exp_plus, exp_Ropp. reflexivity. }
-  rewrite E. clear E. unfold lnT. rewrite <- dd_forward_noise, <- dd_backward_noise.
-  unfold dd_t_prob_real. fold (dd_forward_real gauss). fold (dd_backward_real gauss (Dt x) (Dt x')). f_equal. field. lra.
+  rewrite E. clear E. rewrite <- dd_lnT_arg_is_log_density_ratio. reflexivity.
 Qed.
+
+(* what the uniform number is compared with: |Psi'/Psi|^2 t_prob, times sign(Psi'/Psi) for real wave functions; the same exponential in both *)
+Lemma dd_tprob_same dx dn : dd_t_prob_complex tstep gauss dx dn = dd_t_prob_real tstep gauss dx dn.
+Proof. unfold dd_t_prob_complex, dd_t_prob_real. first [reflexivity | f_equal; vec_field; lra]. Qed.
+Lemma dd_ratio_complex_shape v dx dn : dd_ratio_complex tstep v gauss dx dn = Rabs v ^ 2 * dd_t_prob_complex tstep gauss dx dn.
+Proof. unfold dd_ratio_complex, dd_t_prob_complex. ring. Qed.
+Lemma dd_ratio_real_shape v dx dn : dd_ratio_real tstep v gauss dx dn = Rabs v ^ 2 * dd_t_prob_real tstep gauss dx dn * sgn v.
+Proof. unfold dd_ratio_real, dd_t_prob_real. ring. Qed.
+Lemma dd_accept_complex_shape v dx dn : dd_accept_complex tstep u v gauss dx dn <-> u < dd_ratio_complex tstep v gauss dx dn.
+Proof. unfold dd_accept_complex, dd_ratio_complex. split; intro H; exact H. Qed.
+Lemma dd_accept_real_shape v dx dn : dd_accept_real tstep u v gauss dx dn <-> u < dd_ratio_real tstep v gauss dx dn.
+Proof. unfold dd_accept_real, dd_ratio_real. split; intro H; exact H. Qed.
 
 (* complex wave functions: plain Metropolis-Hastings *)
 Theorem dd_accept_complex_is_mh (v : R) : 0 <= u < 1 ->
   (dd_accept_complex tstep u v gauss (Dt x) (Dt x') <-> u < mh_prob (Rabs v ^ 2) (Tdens tstep Dt x' x / Tdens tstep Dt x x')).
 Proof.
-  intros Hu. unfold dd_accept_complex, mh_prob.
-  change (exp (1 / (2 * tstep) * (vsum (vpow gauss 2) - vsum (vpow (vadd (vadd gauss (Dt x)) (Dt x')) 2)))) with (dd_t_prob_real tstep gauss (Dt x) (Dt x')).
-  rewrite dd_tprob_is_density_ratio.
+  intros Hu. rewrite dd_accept_complex_shape, dd_ratio_complex_shape, dd_tprob_same, dd_tprob_is_density_ratio. unfold mh_prob.
   set (q := Rabs v ^ 2 * (Tdens tstep Dt x' x / Tdens tstep Dt x x')). unfold Rmin. destruct (Rle_dec 1 q); split; intro; lra.
 Qed.
 
@@ -47,17 +62,15 @@ Qed.
 Theorem dd_accept_real_same_sign (v : R) : 0 <= u < 1 -> 0 < v ->
   (dd_accept_real tstep u v gauss (Dt x) (Dt x') <-> u < mh_prob (Rabs v ^ 2) (Tdens tstep Dt x' x / Tdens tstep Dt x x')).
 Proof.
-  intros Hu Hv. unfold dd_accept_real, mh_prob. rewrite (sgn_pos v Hv), Rmult_1_r.
-  change (exp (1 / (2 * tstep) * (vsum (vpow gauss 2) - vsum (vpow (vadd (vadd gauss (Dt x)) (Dt x')) 2)))) with (dd_t_prob_real tstep gauss (Dt x) (Dt x')).
-  rewrite dd_tprob_is_density_ratio.
+  intros Hu Hv. rewrite dd_accept_real_shape, dd_ratio_real_shape, (sgn_pos v Hv), Rmult_1_r, dd_tprob_is_density_ratio. unfold mh_prob.
   set (q := Rabs v ^ 2 * (Tdens tstep Dt x' x / Tdens tstep Dt x x')). unfold Rmin. destruct (Rle_dec 1 q); split; intro; lra.
 Qed.
 
 (* ... and a move that changes the sign of Psi (or lands on the node) is never accepted: fixed node *)
 Theorem dd_fixed_node (v : R) (dn : vec3) : 0 <= u -> v <= 0 -> ~ dd_accept_real tstep u v gauss (Dt x) dn.
 Proof.
-  intros Hu Hv. unfold dd_accept_real.
-  set (t := exp _). assert (Ht : 0 < t) by apply exp_pos.
+  intros Hu Hv. rewrite dd_accept_real_shape, dd_ratio_real_shape.
+  set (t := dd_t_prob_real tstep gauss (Dt x) dn). assert (Ht : 0 < t) by (subst t; unfold dd_t_prob_real; apply exp_pos).
   assert (Ha : 0 <= Rabs v ^ 2) by (apply pow2_ge_0).
   destruct (Rle_lt_or_eq_dec v 0 Hv) as [Hneg|Hz].
   - rewrite (sgn_neg v Hneg). nra.
@@ -68,7 +81,7 @@ Theorem dd_returns :
   dd_returned_position_real x gauss (Dt x) = x' /\ dd_returned_r2_real gauss (Dt x) = norm2 (vsub x' x) /\
   (forall v dn, dd_returned_accept_real tstep u v gauss (Dt x) dn = dd_accept_real tstep u v gauss (Dt x) dn).
 Proof.
-  split; [reflexivity|]. split; [|reflexivity]. subst x'. unfold dd_returned_r2_real, dd_eposnew_real. rewrite norm2_expand. unfold vsum, vpow, vsub, vadd; cbn. ring.
+  split; [reflexivity|]. split; [|reflexivity]. subst x'. set (d0 := Dt x). clearbody d0. unfold dd_returned_r2_real, dd_eposnew_real. vec_ring.
 Qed.
 End DDKernel.
 
@@ -106,13 +119,13 @@ Theorem wmult_bounded tstep Snew Sold r2a r2p lo hi : 0 < tstep -> 0 <= r2a <= r
   lo <= Snew <= hi -> lo <= Sold <= hi ->
   Rmin 1 (exp (tstep * lo)) <= dmc_wmult tstep Snew Sold r2a r2p <= Rmax 1 (exp (tstep * hi)).
 Proof.
-  intros Ht Hr Hp Hn Ho. unfold dmc_wmult.
+  intros Ht Hr Hp Hn Ho.
   set (d := r2a / r2p). assert (Hd : 0 <= d <= 1).
   { subst d. split; [apply Rmult_le_pos; [lra|apply Rlt_le, Rinv_0_lt_compat; lra]|]. apply (Rmult_le_reg_r r2p); [lra|]. unfold Rdiv. rewrite Rmult_assoc, Rinv_l by lra. lra. }
   set (m := 1 / 2 * Snew + 1 / 2 * Sold). assert (Hm : lo <= m <= hi) by (subst m; lra).
   set (tl := tstep * lo). set (th := tstep * hi). set (tm := tstep * m).
   assert (Htm : tl <= tm <= th) by (subst tl th tm; split; apply Rmult_le_compat_l; lra).
-  assert (E : tstep * d * m = d * tm) by (subst tm; ring). rewrite E.
+  assert (E : dmc_wmult tstep Snew Sold r2a r2p = exp (d * tm)) by (unfold dmc_wmult; f_equal; subst d tm m; field; lra). rewrite E.
   assert (Dm : d * tm = tm - (1 - d) * tm) by ring.
   split.
   - destruct (Rle_lt_dec 0 tl) as [Hpos|Hneg].
@@ -133,7 +146,7 @@ Theorem eigenfunction_keeps_weights tau branchcut E nelec v2 tstep r2a r2p : 0 <
 Proof.
   intros Hb. assert (S0 : dmc_compute_S tau branchcut E E E nelec v2 = 0).
   { unfold dmc_compute_S. replace (E - E) with 0 by ring. rewrite Rabs_R0. destruct (Rlt_dec branchcut 0); [lra|]. unfold Rdiv. ring. }
-  split; [exact S0|]. rewrite S0. unfold dmc_wmult. replace (tstep * (r2a / r2p) * (1 / 2 * 0 + 1 / 2 * 0)) with 0 by ring. apply exp_0.
+  split; [exact S0|]. rewrite S0. unfold dmc_wmult. rewrite <- exp_0. f_equal. unfold Rdiv. ring.
 Qed.
 
 (* Umrigar drift limiter: a non-negative multiple of g, never longer than the unlimited drift tau*g *)
